@@ -34,7 +34,8 @@ pub fn minimise(run: &IoRun, v: &Violation) -> (IoRun, Violation, Value) {
     let mut s = Shrinker {
         class: v.class(),
         evals: 0,
-        max_evals: 250,
+        // a candidate that never returns costs the whole watchdog period
+        max_evals: if v.invariant == "O1_never_returned" { 4 } else if v.invariant == "O1_process_died" { 60 } else { 250 },
         best_v: v.clone(),
     };
     let mut cur = run.clone();
